@@ -69,6 +69,16 @@ T = {
               "first missed (edge counts were derived from the faces only), caught after the shape's own edge list was compared with the face edges"),
  (3, "C19"): ("Polyhedron.to_hoomd skips centring unless all centroid components are non-zero (np.all for np.any)", "off-origin polyhedron with a zero centroid component", ["C19"], ""),
  (3, "C20"): ("to_vtk declares the POLYGONS size with the vertex count instead of the face count", "VTK export of a polyhedron with V != F", ["C20"], ""),
+ (4, "C01"): ("ConvexPolyhedron.__init__ uses np.asarray: a float64 input array becomes the stored vertex buffer", "float64 ndarray input shared with the caller or another shape, then an in-place setter on one owner", ["C15"],
+              "the clause it breaks is C15's 'a constructor never stores the caller's arrays' (vertices_share_no_memory); C01's construct-and-read obligations stay exact"),
+ (4, "C02"): ("polytri.triangulate skips 'numerically coincident' vertices with np.allclose (rtol relative to the coordinates)", "general Polyhedron at an offset >= 1e5 times a face edge", ["C02"], "witness found by the solver at offsets of about 2e5"),
+ (4, "C03"): ("Polyhedron.diagonalize_inertia rotates the stored normals with principal_axes instead of the handedness-corrected rotation", "general Polyhedron and an eigh result with determinant -1", ["C03"],
+              "first reported as a harness error only (the real eigh differs from the harness's matrix at the replay), a VIOLATION after the eigh environment was imposed on the float replay as well"),
+ (4, "C04"): ("planar_moments_inertia takes abs of the per-edge weights of I_xy", "polygon not star-shaped from the origin (off-origin or U-shaped)", ["C04"], ""),
+ (4, "C05"): ("ConvexPolyhedron.is_inside accepts isclose(n.x, -d) with rtol relative to the plane offset", "query point just outside a face, within 1e-5 |d|", ["C05"], ""),
+ (4, "C07"): ("merge_faces compares normals up to sign but offsets without it: oppositely oriented coplanar neighbours are not merged", "mixed-orientation triangulated input, face plane off the origin", ["C07"], ""),
+ (4, "C09"): ("Polygon.is_inside rotates the query points with R instead of R^T", "polygon in a tilted plane with a non-symmetric alignment rotation", ["C09"],
+              "first 'unreproduced' (at the path's sample the float code is right by coincidence), caught after a violated claim was given up to two more witnesses far from the first"),
 }
 for (wave, pid), (what, needs, checks, note) in sorted(T.items()):
     d = os.path.join(ROOT, "seeded%d" % wave, pid)
@@ -77,7 +87,7 @@ for (wave, pid), (what, needs, checks, note) in sorted(T.items()):
     old = {}
     if os.path.exists(os.path.join(d, "meta.json")):
         old = json.load(open(os.path.join(d, "meta.json")))
-    m = dict(property=pid, wave=wave, origin=ORIGIN2 if wave == 2 else ORIGIN3, what=what, needs_to_manifest=needs, checks=checks,
+    m = dict(property=pid, wave=wave, origin=ORIGIN2 if wave == 2 else ORIGIN3 + (" (fourth wave: also a list of kinds of mistake to prefer)" if wave == 4 else ""), what=what, needs_to_manifest=needs, checks=checks,
              detected_by="; ".join("bin/check %s --tier quick (exit 1 with the patch, exit 0 without)" % c for c in checks), note=note,
              validated=old.get("validated"))
     v = "/tmp/valq_seeded%d_%s.json" % (wave, pid)
